@@ -497,6 +497,63 @@ def shard(shard, nshards, wmax, seed, nsamples):
     return run
 
 
+class _ShortcutsAsManager(object):
+    """pysmt.shortcuts seen through the interface of a FormulaManager (names resolve to the module's functions)."""
+
+    def __init__(self, env):
+        self.env = env
+
+    def __getattr__(self, name):
+        return getattr(sc, name)
+
+
+def shard_shortcuts(shard, nshards):
+    """Every constructor application of the C03 table (each public constructor x sort tuples x argument forms) made
+    through the function of the same name in pysmt.shortcuts, while the environment is the current one: the very same
+    object as through the manager, or a rejection on both sides."""
+    from vf.checks import c03
+    run = Run(PID)
+    env = Environment()
+    with env:
+        mgr = env.formula_manager
+        proxy = _ShortcutsAsManager(env)
+        for idx, (name, ts, ps, build, expected, must_reject, form) in enumerate(
+                (a + (fm,)) for a in c03.applications() for fm in c03.FORMS):
+            if idx % nshards != shard or not hasattr(sc, name):
+                continue
+            if form != "symbol" and name in ("ForAll", "Exists"):
+                continue
+            args, cnt = [], {}
+            for t in ts:
+                k = cnt.get(t, 0)
+                cnt[t] = k + 1
+                args.append(c03.basis_term(env, t, k, form))
+            outs = []
+            for m in (mgr, proxy):
+                try:
+                    outs.append(("ok", build(m, args)))
+                except RecursionError:
+                    # (an ill-typed array value is rejected through a RecursionError: the message of the type error
+                    #  prints the node, which asks for its type again; a rejection, but a slow one - not repeated)
+                    outs.append(("raised", "RecursionError"))
+                    break
+                except Exception as e:
+                    outs.append(("raised", type(e).__name__))
+            if len(outs) == 1:
+                run.cls("shortcut-skipped:slow-rejection")
+                continue
+            label = "%s%s(%s) args=%s" % (name, list(ps) if ps else "", ", ".join(B.tystr(t) for t in ts), form)
+            run.case(key=("shortcut", label), nontrivial=outs[0][0] == "ok")
+            run.cls("shortcut-vs-manager")
+            same = (outs[0][0] == outs[1][0]) and (outs[0][0] == "raised" or outs[0][1] is outs[1][1])
+            if not same:
+                run.fail({"subcheck": "shortcut:differs-from-manager", "form": "shortcuts." + name},
+                         {"form": "shortcuts." + name, "types": list(ts), "params": [str(p) for p in ps], "args": form},
+                         "shortcuts.%s: %s, FormulaManager.%s: %s  [%s]" % (
+                             name, c03.sstr(outs[1][1]), name, c03.sstr(outs[0][1]), label))
+    return run
+
+
 def main():
     chk = Check(PID, "exploration", RULE, assumptions=[
         "reference evaluator vf/refsem.py; the Python definitions in vf/checks/c06.py are the stated meaning of each name",
@@ -506,10 +563,13 @@ def main():
     ns = 16
     jobs = [(shard, dict(shard=s, nshards=ns, wmax=wmax, seed=chk.seed, nsamples=5000 if thorough else 1000))
             for s in range(ns)]
+    jobs += [(shard_shortcuts, dict(shard=s, nshards=ns)) for s in range(ns)]
     chk.add(run_shards(jobs))
+    chk.exhaustive.append("every application of the C03 constructor table through the pysmt.shortcuts function of the same name")
     chk.exhaustive.append("all Bool / BV (widths 1..%d) argument tuples of every form with a finite domain <= 4096" % wmax)
     chk.floor("exhaustive-form", 500)
     chk.floor("sampled-form", 100)
+    chk.floor("shortcut-vs-manager", 50000)
     return chk.finish()
 
 
